@@ -80,7 +80,7 @@ def G(name, harness, props, expect, fns, cfgs=((16, None),), timeout={'quick': 9
     for hv, ab in cfgs:
         nm = '%s_h%d' % (name, hv) + ('_a%d' % ab if ab is not None else '')
         lv = levels(hv, ab) if ab is not None else levels(hv, 2)
-        d = dict(name=nm, harness=harness, enforce=[], dfcc=False, functions=fns, expect=expect, props=props, timeout=timeout, tier=tier, unwind=lv + 2, unwindset={'h_expand_slot.0': 17},
+        d = dict(name=nm, harness=harness, enforce=[], dfcc=False, functions=fns, expect=expect, props=props, timeout=timeout, tier=tier, unwind=lv + 2, unwindset={'h_expand_slot.0': 17, 'h_insert_triple.0': 4, 'h_insert_triple.1': 4, 'h_insert_triple.2': 4, 'h_insert_triple.3': 4}, object_bits=12,
                  defines=['VX_HASH=%d' % hv, 'VX_NPOOL=%d' % min(8, max(3, lv + 1 + extra_nodes))] + (['VX_AB=%d' % ab] if ab is not None else []),
                  replay=dict(driver='replay.cpp', case=nm, vars=['head_bits', 'array_bits', 'h0', 'h1', 'h2'], repo_sources=RS))
         d.update(kw)
